@@ -6,31 +6,31 @@ HOOK_COMMIT = subprocess.run("git -C /repo log --format=%H --grep='Add verif-hoo
 
 EXPLO = "exploration"
 T = {
- "C01": ("differential vs independent ephemeris (Meeus ch.25 + IAU-1982 GAST, integer JDN); proptest generators + enumerated date x meridian grid",
+ "C01": ("differential vs independent ephemeris (Meeus ch.25 + IAU-1982 GAST, integer JDN); proptest generators (incl. oracle-constructed sites whose local midnight is within minutes of the RA wrap, and a history-independence priming call) + enumerated date x meridian grid",
          "Generated sites/dates/methods plus a grid of 24 meridians x dates (quick: every Mar 17-24 of 1600-2399; thorough: every date 1600-2399, 7.0 M evaluations) are each compared with an ephemeris that shares no code with the library; |hour angle| <= 10 s. Sampling plus a complete date grid at fixed meridians, not a proof over all real-valued sites.",
          "oracle accuracy ~2.4 s of time; Delta-T ignored as in the library; truncated seconds evaluated at t+0.5 s", "6 C01"),
  "C02": ("differential vs independent ephemeris (altitude at the reported instant) + metamorphic weather/no-weather pairs; proptest",
          "Each generated case checks the Sun's geometric altitude at the reported Shurooq/Maghrib against -0.833 +- 0.05 deg with the independent ephemeris, the order around Dhuhr, and that weather moves only these two (and interval-derived times) by < 60 s.",
          "events within 15 min of the civil-day seam are not pinned to an instant (counted as skipped)", "6 C02"),
- "C03": ("reference model (altitude formula with oracle declination, true altitude from the ephemeris) + metamorphic monotonicity in the angle; proptest",
+ "C03": ("reference model (altitude formula with oracle declination, true altitude from the ephemeris) + metamorphic monotonicity in the angle; proptest incl. boundary-directed latitudes (bisection onto the existence boundary) and a history-independence priming call",
          "Fajr/Isha/Imsaak are checked against the configured depression (0.03 deg under the date's declination, 0.5 deg instantaneous) for the 6 angle methods and custom angles in [9,21], both hemispheres and all seasons, plus monotonicity under a second, larger angle triple.",
          "date's declination = oracle declination at local 0h", "6 C03"),
  "C04": ("reference model arccot(k + tan|lat-dec|) with oracle declination + metamorphic Shafi/Hanafi pair; proptest with zenith-passage latitudes constructed from the oracle",
          "Each case is evaluated under both schools: altitude at Asr vs the shadow rule within 0.03 deg, Dhuhr < Asr < Maghrib, Hanafi strictly later; latitudes equal to the date's declination +-0.2 deg are constructed.",
          "hour angle taken from the reported Dhuhr; truncated seconds", "6 C04"),
- "C05": ("validity predicate over the 7-entry result (completeness, circular order relative to Dhuhr, 12 h bound, no flag without policy); proptest",
+ "C05": ("validity predicate over the 7-entry result (completeness, circular order relative to Dhuhr, 12 h bound, no flag without policy); proptest incl. boundary-directed longitudes (an entry bisected onto the midnight crossing)",
          "Generated configurations (8 methods, custom angles, 4 rounding modes, policy None/default) are checked for exactly 7 entries and the chronological order of the conventional entries measured before/after Dhuhr.",
          "order measured on the 24 h circle relative to Dhuhr; 60 s slack on the 12 h bound under rounding", "6 C05"),
  "C06": ("reference model of event existence (altitude range of the day from the oracle declination) compared with the Ok/Invalid pattern; proptest with boundary latitudes constructed from the oracle",
          "Up to 6 existence decisions per case, latitudes up to +-89.5 with atoms within 1 deg of every existence boundary; both directions (fabricated / withheld) are checked; decisions within the stated 0.05 deg band are exempt and counted.",
          "event exists iff |lat+dec|-90 <= h <= 90-|lat-dec| with the oracle declination at local 0h", "6 C06"),
- "C07": ("crash/hang freedom over the full parameter product under catch_unwind + watchdog; proptest (quick, thorough) and libFuzzer target c07_nopanic (thorough)",
+ "C07": ("crash/hang freedom over the full parameter product under catch_unwind + watchdog; proptest incl. boundary-directed minute offsets (a prayer bisected onto the midnight wrap, +-8 ulps, 4 rounding modes) and libFuzzer target c07_nopanic (thorough)",
          "The full product of sites (incl. poles), 9 methods x 15 policies x 4 roundings, angles [0,25], intervals [0,180], offsets [-1500,1500], weather and dates is sampled; any panic, missing entry or (confirmed) hang is a violation.",
          "hang = > 30 s and reproduced in a fresh process; release build without overflow checks", "6 C07"),
  "C08": ("metamorphic: same call with and without the policy (conventional reference), per-entry equality/flag predicates; proptest",
          "Each generated (site, method, policy) is compared with the conventional result: Fajr/Isha-only policies leave the other four untouched, 'invalid' policies are the identity on valid Fajr/Isha and on all-valid days, unflagged entries equal conventional ones.",
          "interval-consuming policies use a reference with zeroed intervals; interval-defined times whose angle event does not exist are exempt (oracle predicate)", "6 C08"),
- "C09": ("reference model (independent outward day search through the public API with no policy); proptest + fixed-site whole-year sweeps",
+ "C09": ("reference model (independent outward day search through the public API with no policy); proptest incl. boundary-directed latitudes (closest good day at the edge of existence) + fixed-site whole-year sweeps",
          "The fallback value must equal, to the second, the conventional Fajr/Isha of the closest good date found by an independent search (earlier date on ties); generated cases are weighted to local summer and the first/last days of the year in both hemispheres; whole years are swept at fixed sites.",
          "a date is good when the no-policy API reports both Fajr and Isha", "6 C09"),
  "C10": ("reference model: expected values built from the conventional run (and one at the substitute latitude) with the formulas of the statement; proptest",
@@ -48,7 +48,7 @@ T = {
  "C14": ("differential range API vs single-date API + structural validity predicate for partition; exhaustive small sub-space + proptest",
          "All (length -3..130, parts 0..64) at 3 starts are enumerated in both tiers; generated (start, length -400..2000, k 0..64) cases compare num_days, the partition structure and every entry of the range API with the single-date API.",
          "empty single part accepted for an empty range with k<2", "6 C14"),
- "C15": ("differential parallel vs sequential API under seeded schedule perturbation (delays/yields injected at 10 hook points, worker-count override) with a termination watchdog; proptest",
+ "C15": ("differential parallel vs sequential API under seeded schedule perturbation (delays/yields and occasional multi-second stalls injected at 9 hook points, worker-count override) with a termination watchdog; proptest in 8 processes",
          "Each generated (workers 1..64, days 0..6000, threshold, delay plan) runs the parallel API with perturbed scheduling and compares the whole map with the sequential result; the hook confirms the parallel branch was really taken. Interleavings are perturbed, not enumerated: absence for every interleaving is not established.",
          "OS scheduler not owned; the saved case with its delay plan is the reproducible unit; hang = > 60 s and reproduced", "6 C15"),
  "C16": ("differential vs independent vector bearing; proptest",
@@ -60,7 +60,7 @@ T = {
  "C18": ("differential across the three construction routes vs generic f64 parsers + closed-range predicate; proptest (all tiers) and libFuzzer target c18_routes (thorough)",
          "Generated numbers (bounds +-1 ulp, +-0, subnormals, NaN payloads, infinities, random bits), strings and JSON documents (scalars and composites Coordinates/Weather/Location/ExtremeLatitudeMethod/Params) are fed to every route; acceptance must equal 'generic parser accepts and value in range', read-back bit-identical, never a panic.",
          "reference parsers: str::parse::<f64>, serde_json::from_str::<f64>", "6 C18"),
- "C19": ("differential binary vs library (JSON output, terminal listing) + round trip through the saved parameter file + rejection of invalid inputs; proptest over command lines",
+ "C19": ("differential binary vs library (JSON output, terminal listing) + round trip through the saved parameter file (also over pre-existing files and at boundary-directed longitudes) + rejection of invalid inputs; proptest over command lines",
          "Generated command lines are run against the repository's binary built from the current tree: -o JSON must decode to the library's result, -p then -i must reproduce byte-identical output, the listing must show the Hijri date and 7 entries per date, invalid values must exit non-zero before anything is written.",
          "start/end dates always passed; long ranges only at moderate latitudes", "6 C19"),
  "C20": ("metamorphic: (gmt+d) and (lon+15d, gmt+d) shifts; proptest",
